@@ -103,9 +103,10 @@ Definition normalize_idx_name (idx : index) (t : table) : option index :=
            end
   end.
 
-(** [diff.FindGeneratedIndex]: [schema.NewIndex(idx.Name)] has no parts and no attributes *)
+(** [diff.FindGeneratedIndex]: normalizes a copy of the index that carries its name, parts and
+    attributes ([&schema.Index{Name: idx.Name, Parts: idx.Parts, Attrs: idx.Attrs}]) *)
 Definition sqlite_find_generated_index (t : table) (idx : index) : option (nat * index) :=
-  match normalize_idx_name (mkIndex (i_name idx) false [] None None None) t with
+  match normalize_idx_name (mkIndex (i_name idx) false (i_parts idx) (i_pred idx) (i_comment idx) (i_origin idx)) t with
   | None => None
   | Some nr => find_idx (i_name nr) (t_idx t)
   end.
@@ -134,7 +135,8 @@ Definition same_fk (n1 n2 : str) (fk1 fk2 : fkey) : bool :=
   else negb (names_differ (f_cols fk1) (f_cols fk2)) && negb (names_differ (f_refcols fk1) (f_refcols fk2)).
 
 (** [diff.Normalize], foreign keys: the inner loop over to.ForeignKeys with the
-    [used] flags; returns fk1 (symbol possibly rewritten, several times) and the flags *)
+    [used] flags; fk1 is paired with the first unused match (then [break]); returns fk1
+    (symbol possibly rewritten) and the flags *)
 Fixpoint normalize_fk_inner (n1 n2 : str) (fk1 : fkey) (tofks : list fkey) (used : list bool)
   : fkey * list bool :=
   match tofks, used with
@@ -142,8 +144,7 @@ Fixpoint normalize_fk_inner (n1 n2 : str) (fk1 : fkey) (tofks : list fkey) (used
       if u then let '(r, us) := normalize_fk_inner n1 n2 fk1 tofks' used' in (r, u :: us)
       else if (str_eqb (f_symbol fk2) (f_symbol fk1) && negb (is_uint (f_symbol fk1)))
               || same_fk n1 n2 fk1 fk2
-      then let '(r, us) := normalize_fk_inner n1 n2 (set_f_symbol fk1 (f_symbol fk2)) tofks' used' in
-           (r, true :: us)
+      then (set_f_symbol fk1 (f_symbol fk2), true :: used')
       else let '(r, us) := normalize_fk_inner n1 n2 fk1 tofks' used' in (r, u :: us)
   | _, _ => (fk1, used)
   end.
